@@ -18,7 +18,7 @@ RULE = (
     "rotations reached the long way round), SE(2) |theta| < 2pi-1e-2; (b) algebra elements with rotation angle "
     "< pi-1e-2; (c) one (axis, angle, translations) encoded into all four SO(3) parameterisations and both "
     "quaternion signs. Oracles: matrix equality for exp(log X); vector equality for log(exp x); principal log = "
-    "vee(logm(M(X))) by scipy (quick) / mpmath (thorough) and the harness' atan2-based rotation log. Non-trivial: "
+    "vee(logm(M(X))) by scipy and the harness' atan2-based rotation log. Non-trivial: "
     "rotation angle in [1e-2, pi-1e-2] (mod the long way round), non-zero translations; for principal/crossrep "
     "additionally q0<0 or a non-zero translation; distinct = hash of (cell, inputs rounded to 9 digits)."
 )
@@ -54,14 +54,9 @@ def _cond(spec):
 
 
 def logm_vee(gi, M, tier):
-    if tier == "thorough":
-        import mpmath as mp
-
-        with mp.workdps(40):
-            Lm = mp.logm(ref.mp_matrix(M))
-            Ln = np.array([[float(mp.re(Lm[i, j])) for j in range(Lm.cols)] for i in range(Lm.rows)])
-    else:
-        Ln = ref.logm_real(M)
+    # scipy's principal matrix logarithm in both tiers (mpmath.logm returns a non-principal branch for rotations
+    # beyond ~pi/2 about a coordinate axis, e.g. 3.1 rad about x -> 3.1 - pi)
+    Ln = ref.logm_real(M)
     x, res = L.vee(gi, Ln)
     return x, res
 
@@ -236,7 +231,7 @@ def build(tier):
             "rotation angles are kept 1e-2 rad away from pi (the property's 'small margin'); tolerances scale with "
             "1/(pi-angle) (conditioning of log) and with 1+|translations|",
             "canonical inputs for the principal cells: unit quaternions of either sign, MRPs with |r|<=1, DCM, Euler",
-            "principal log oracle: scipy.linalg.logm (quick) / mpmath.logm at 40 digits (thorough) projected on the "
+            "principal log oracle: scipy.linalg.logm (both tiers) projected on the "
             "algebra basis (closure residual checked), plus an atan2-based rotation log written in the harness",
         ],
         "matchers": {},
